@@ -154,6 +154,8 @@ class PerspectiveCamera(Camera):
                 yfov = float(yfov.text)
             if aspect_ratio is not None:
                 aspect_ratio = float(aspect_ratio.text)
+            if znearnode is None or zfarnode is None:
+                raise DaeIncompleteError('Missing znear or zfar in camera definition')
             znear = float(znearnode.text)
             zfar = float(zfarnode.text)
         except (TypeError, ValueError):
@@ -305,6 +307,8 @@ class OrthographicCamera(Camera):
                 ymag = float(ymag.text)
             if aspect_ratio is not None:
                 aspect_ratio = float(aspect_ratio.text)
+            if znearnode is None or zfarnode is None:
+                raise DaeIncompleteError('Missing znear or zfar in camera definition')
             znear = float(znearnode.text)
             zfar = float(zfarnode.text)
         except (TypeError, ValueError):
